@@ -63,6 +63,37 @@ theorem expired_follow_up_reaches_the_application (M : Nat) (req : Request) (siz
   · rw [h, hp]
     exact handleBlock2_pass req BlockState.default (Or.inr rfl)
 
+/-- … and an upload continues from an EMPTY buffer: block `num` of an upload arriving after the state has
+expired (default state) is spliced at its offset into nothing – what is buffered (non-final block) or
+handed to the application (final block) is `num · size` zero bytes followed by the block's payload,
+nothing of what was buffered before the expiry -/
+theorem expired_upload_continues_from_empty (req : Request) (M : Nat) (rb1 resp1 : BlockValue)
+    (size : Nat) (resp : Packet)
+    (hb : firstBlock req.message block1Num = some rb1)
+    (hsz : computeMessageSize req.message = .ok size)
+    (hn : negotiate (some rb1) size req.message.payload.length M = .ok (some resp1))
+    (hr : req.response = some resp) (hok : BvOk resp1)
+    (hjump : rb1.num * rb1.size + rb1.size ≤ Consts.maxUncommittedReserve) :
+    ∃ bs resp', resp1.enc = .ok bs ∧ resp' = resp.addOption block1Num bs ∧
+      handleBlock1 req M BlockState.default =
+        if rb1.more then
+          ({ req with response := some (setCode resp' .Continue) },
+           { BlockState.default with
+               cachedPayload := some (List.replicate (rb1.num * rb1.size) 0 ++ req.message.payload) }, .ok true)
+        else
+          ({ req with
+              message := { req.message with payload := (List.replicate (rb1.num * rb1.size) 0 ++ req.message.payload) },
+              response := some resp' },
+           { BlockState.default with cachedPayload := none }, .ok false) := by
+  apply handleBlock1_step req M BlockState.default rb1 resp1 size resp _ hb hsz hn hr hok
+  have he : (if rb1.num = 0 then ([] : Bytes) else BlockState.default.cachedPayload.getD []) = [] := by
+    split <;> rfl
+  rw [he]
+  unfold extendingSplice
+  simp only [List.length_nil, ge_iff_le, Nat.zero_le, ↓reduceIte, Nat.sub_zero, List.nil_append]
+  rw [if_neg (by omega)]
+  simp
+
 /-- the cache itself: an entry idle for longer than `ttl` is never seen again -/
 theorem expired_entry_invisible {K V : Type} [DecidableEq K] (c : Lru.Cache K V) (k : K) (v : V)
     (t now : Nat) (hf : Lru.find c k = some (v, t)) (hexp : t + c.ttl < now) :
